@@ -1087,7 +1087,7 @@ func (c *aspcontext) RequiredGas(input []byte) uint64 {
 
 func (c *aspcontext) Run(ctx context.Context, input []byte) ([]byte, error) {
 	if input == nil || len(input) < 20 {
-		return nil, nil
+		return nil, errors.New("invalid input data length")
 	}
 	address := common.BytesToAddress(input[:20])
 	key := string(input[20:])
@@ -1109,7 +1109,7 @@ func (u *userOpSender) RequiredGas(input []byte) uint64 {
 
 func (u *userOpSender) Run(ctx context.Context, input []byte) ([]byte, error) {
 	if len(input) == 0 {
-		return nil, nil
+		return nil, errors.New("invalid input data length")
 	}
 
 	var userOpHash common.Hash
@@ -1138,7 +1138,7 @@ func (c *contextWriter) RequiredGas(input []byte) uint64 {
 
 func (c *contextWriter) Run(ctx context.Context, input []byte) ([]byte, error) {
 	if input == nil || len(input) < 128 {
-		return nil, nil
+		return nil, errors.New("invalid input data length")
 	}
 	if c.ctx == nil {
 		// reached through CALLCODE, DELEGATECALL or STATICCALL, which carry no caller context
